@@ -151,6 +151,14 @@ def step (_ : Unit) (ts : List String) : Unit × String :=
             | none => []
           -- tie of the count-store fast path theorem: are these the two statement shapes `count_fast_path_preserves` is about?
           let cfp := if so == C02.cfpOpt then (if su == C02.cfpUnopt then " cfp-tie=ok" else " cfp-tie=differs") else ""
+          -- tie of `opt_equiv`: inside the proved fragment the two REAL statements must be the model pair's statements (and parameterless)
+          let frag := match q with
+            | some cq => match C02.trOpt km cq, C02.trUnopt km cq with
+              | some (mo, _), some (mu, _) => if so == mo && su == mu then " frag-tie=ok" else
+                  (if so == mo then " frag-tie=differs:unoptimised" else " frag-tie=differs:optimised")
+              | _, _ => ""
+            | none => ""
+          let cfp := cfp ++ frag
           let counts := s!"graphs={graphs.length} sql-agree={countBy sqlRes isAgree} sql-bag-only={countBy sqlRes isBag} sql-unmodelled={countBy sqlRes isUn} cy-compared={cyRes.length} cy-agree={countBy cyRes isAgree} cy-unmodelled={countBy cyRes isUn}{cfp}"
           match diffs with
           | (st, d) :: _ =>
